@@ -5,6 +5,36 @@ from .core import AnalysisError
 from .astutil import fold, try_fold, NotConstant, dotted, unparse
 
 
+_MISSING = object()
+_MUTATORS = {'setdefault', 'update', 'pop', 'popitem', 'clear', '__setitem__', '__delitem__', 'append', 'extend', 'insert', 'remove',
+             'sort', 'reverse', 'add', 'discard', 'difference_update', 'intersection_update', 'symmetric_difference_update'}
+
+
+def _const_node(v):
+    """AST of a folded value (ints, strings, None, booleans, tuples / lists of those), or None."""
+    if v is None or isinstance(v, (int, str, bytes, bool)):
+        return ast.Constant(value=v)
+    if isinstance(v, (tuple, list)):
+        elts = [_const_node(x) for x in v]
+        if any(e is None for e in elts):
+            return None
+        return ast.Tuple(elts=elts, ctx=ast.Load()) if isinstance(v, tuple) else ast.List(elts=elts, ctx=ast.Load())
+    return None
+
+
+def _substitute(node, env):
+    """Copy of a statement with the loop variables replaced by the element expressions (parent links not followed)."""
+    class Subst(ast.NodeTransformer):
+        def visit_Name(self_inner, n):
+            if n.id in env and isinstance(n.ctx, ast.Load):
+                return _strip_parents(env[n.id])
+            return n
+    out = Subst().visit(_strip_parents(node))
+    ast.copy_location(out, node)
+    ast.fix_missing_locations(out)
+    return out
+
+
 def _strip_parents(node):
     """Copy of an expression without the parent links core.Repo puts on the analysed tree (deepcopy would follow them)."""
     new = node.__class__()
@@ -17,6 +47,36 @@ def _strip_parents(node):
             v = [_strip_parents(x) if isinstance(x, ast.AST) else x for x in v]
         setattr(new, k, v)
     return new
+
+
+class GuardedDict(dict):
+    """Folded module-level values by name.  A name whose construction the program model could not follow (a table filled by a
+    loop it does not unroll, an `update` from something that is not folded, a rebinding inside `if` / `try`) is *poisoned*: it is
+    absent from the dict and every lookup of it raises AnalysisError, so that no rule can mistake "not folded" for "not there"."""
+
+    def __init__(self, poison):
+        super().__init__()
+        self.poison = poison
+
+    def _check(self, key):
+        try:
+            why = self.poison.get(key)
+        except TypeError:
+            return
+        if why is not None:
+            raise AnalysisError('module-level name {} is built in a way the program model does not follow ({})'.format(key, why))
+
+    def __getitem__(self, key):
+        self._check(key)
+        return dict.__getitem__(self, key)
+
+    def get(self, key, default=None):
+        self._check(key)
+        return dict.get(self, key, default)
+
+    def __contains__(self, key):
+        self._check(key)
+        return dict.__contains__(self, key)
 
 
 class Closure:
@@ -55,32 +115,398 @@ class Facts:
     def __init__(self, tree, relpath='bronzebeard/asm.py'):
         self.tree = tree
         self.relpath = relpath
-        self.consts = {}
+        self.poison = {}        # module-level name -> why its value is not folded (see GuardedDict)
+        self.consts = GuardedDict(self.poison)
         self.funcs = {}
         self.classes = {}
         self.closures = {}
-        self.partials = {}
-        self.tables = {}        # dict-of-names tables
+        self.partials = GuardedDict(self.poison)
+        self.tables = GuardedDict(self.poison)        # dict-of-names tables
         self.table_nodes = {}
-        self.sets = {}
+        self.sets = GuardedDict(self.poison)
         self.assign_nodes = {}
+        self.modelled_stmts = set()     # id() of the module-level statements that write a container and were folded into the model
         self._collect()
 
     # ------------------------------------------------------------------------------------------
     def _collect(self):
         for st in self.tree.body:
-            if isinstance(st, ast.FunctionDef):
-                self.funcs[st.name] = st
-            elif isinstance(st, ast.ClassDef):
-                self.classes[st.name] = ClassInfo(st)
-            elif isinstance(st, ast.Assign) and len(st.targets) == 1 and isinstance(st.targets[0], ast.Name):
-                self._assign(st.targets[0].id, st.value, st)
-            elif isinstance(st, ast.Expr) and isinstance(st.value, ast.Call):
-                self._module_call(st.value)
+            self._module_stmt(st, st)
+        self._function_writes()
         for ci in self.classes.values():
             self._class_details(ci)
 
+    def _function_writes(self):
+        """A folded table that a function of the module writes (a registration helper called at import time, a cache) is not what
+        the model folded from the module-level statements: recorded in function_written, and the rules that read a table as *the*
+        content (mnemonic tables, register table) ask require_static() first.  The one benign form `T.setdefault(k, T[...])` (more
+        keys, same values) is not recorded (the encoder interpreter treats it as an extended table)."""
+        self.function_written = {}
+        def local_names(fn):
+            a = fn.args
+            names = {x.arg for x in a.args + a.kwonlyargs + getattr(a, 'posonlyargs', [])}
+            if a.vararg:
+                names.add(a.vararg.arg)
+            if a.kwarg:
+                names.add(a.kwarg.arg)
+            if isinstance(fn, ast.Lambda):
+                return names
+            declared = {n_ for n in ast.walk(fn) if isinstance(n, (ast.Global, ast.Nonlocal)) for n_ in n.names}
+            for n in ast.walk(fn):
+                if isinstance(n, ast.Name) and isinstance(n.ctx, ast.Store) and n.id not in declared:
+                    names.add(n.id)
+            return names
+
+        def visit(node, shadow):
+            for child in ast.iter_child_nodes(node):
+                if isinstance(child, (ast.FunctionDef, ast.AsyncFunctionDef, ast.Lambda)):
+                    inner = shadow | local_names(child)
+                    for n in ast.walk(child):
+                        name, why = None, None
+                        if isinstance(n, ast.Call) and isinstance(n.func, ast.Attribute) and isinstance(n.func.value, ast.Name) \
+                                and n.func.attr in _MUTATORS:
+                            name = n.func.value.id
+                            benign = (n.func.attr == 'setdefault' and len(n.args) == 2 and not n.keywords and isinstance(n.args[1], ast.Subscript)
+                                      and isinstance(n.args[1].value, ast.Name) and n.args[1].value.id == name)
+                            if benign:
+                                name = None
+                        elif isinstance(n, ast.Subscript) and isinstance(n.ctx, (ast.Store, ast.Del)) and isinstance(n.value, ast.Name):
+                            name = n.value.id
+                        elif isinstance(n, ast.Global):
+                            for g in n.names:
+                                if self._known(g):
+                                    self.function_written.setdefault(g, getattr(child, 'name', '<lambda>'))
+                        if name is not None and name not in inner and self._known(name) and \
+                                (dict.__contains__(self.tables, name) or dict.__contains__(self.sets, name)):
+                            self.function_written.setdefault(name, getattr(child, 'name', '<lambda>'))
+                elif not isinstance(child, ast.ClassDef):
+                    visit(child, shadow)
+                else:
+                    visit(child, shadow)
+        visit(self.tree, set())
+
+    # -- module-level statements ---------------------------------------------------------------------------------------------
+    def taint(self, name, why):
+        """The value of a module-level name is not what the folded model says: forget it, refuse every later lookup."""
+        if name in self.poison:
+            return
+        self.poison[name] = why
+        for d in (self.consts, self.tables, self.sets, self.partials):
+            dict.pop(d, name, None)
+        self.closures.pop(name, None)
+
+    def _known(self, name):
+        return any(dict.__contains__(d, name) for d in (self.consts, self.tables, self.sets, self.partials)) or name in self.closures
+
+    def _written_names(self, st):
+        """Module-level names a statement may bind or mutate (nested function / class bodies excluded)."""
+        out = []
+        todo = [st]
+        while todo:
+            n = todo.pop()
+            if isinstance(n, (ast.FunctionDef, ast.AsyncFunctionDef, ast.ClassDef, ast.Lambda)) and n is not st:
+                continue
+            if isinstance(n, ast.Name) and isinstance(n.ctx, (ast.Store, ast.Del)):
+                out.append(n.id)
+            elif isinstance(n, (ast.Subscript, ast.Attribute)) and isinstance(n.ctx, (ast.Store, ast.Del)) and isinstance(n.value, ast.Name):
+                out.append(n.value.id)
+            elif isinstance(n, ast.Call) and isinstance(n.func, ast.Attribute) and isinstance(n.func.value, ast.Name) \
+                    and n.func.attr in _MUTATORS:
+                out.append(n.func.value.id)
+            todo.extend(ast.iter_child_nodes(n))
+        return out
+
+    def _taint_stmt(self, st, why):
+        for name in self._written_names(st):
+            self.taint(name, why)
+
+    def _module_stmt(self, st, top):
+        """One statement of the module body (`top` is the statement of the real tree it stands for: loop bodies are unrolled on
+        copies)."""
+        if isinstance(st, ast.FunctionDef):
+            self.funcs[st.name] = st
+        elif isinstance(st, ast.ClassDef):
+            self.classes[st.name] = ClassInfo(st)
+        elif isinstance(st, ast.Assign) and len(st.targets) == 1 and isinstance(st.targets[0], ast.Name):
+            if st.targets[0].id in self.poison:
+                return
+            self._assign(st.targets[0].id, st.value, st)
+        elif isinstance(st, ast.Assign) and len(st.targets) == 1 and isinstance(st.targets[0], ast.Subscript) \
+                and isinstance(st.targets[0].value, ast.Name):
+            self._module_setitem(st, top)
+        elif isinstance(st, ast.Assign) and all(isinstance(t, ast.Name) for t in st.targets) and not any(t.id in self.poison for t in st.targets):
+            # A = B = <value>
+            for t in st.targets:
+                self._assign(t.id, st.value, st)
+        elif (isinstance(st, ast.Assign) and len(st.targets) == 1 and isinstance(st.targets[0], (ast.Tuple, ast.List))
+              and all(isinstance(e, ast.Name) for e in st.targets[0].elts) and not any(e.id in self.poison or self._known(e.id) for e in st.targets[0].elts)):
+            # A, B, C = <sequence of constants> (a tuple display, range(n), ...): one constant per name
+            names = [e.id for e in st.targets[0].elts]
+            vals = try_fold(st.value, self.consts)
+            if isinstance(st.value, (ast.Tuple, ast.List)) and len(st.value.elts) == len(names) and not any(isinstance(e, ast.Starred) for e in st.value.elts):
+                for n_, e in zip(names, st.value.elts):
+                    self._assign(n_, e, st)
+            elif isinstance(vals, (list, tuple)) and len(vals) == len(names):
+                for n_, v_ in zip(names, vals):
+                    self.assign_nodes[n_] = st
+                    self.consts[n_] = v_
+            else:
+                for n_ in names:
+                    self.assign_nodes[n_] = st
+        elif isinstance(st, ast.Expr) and isinstance(st.value, ast.Call):
+            self._module_call(st.value, top)
+        elif isinstance(st, ast.For):
+            self._module_for(st, top)
+        elif isinstance(st, ast.AugAssign) and isinstance(st.target, ast.Name):
+            self._module_augassign(st, top)
+        elif isinstance(st, ast.Delete):
+            self._module_delete(st, top)
+        elif isinstance(st, (ast.Import, ast.ImportFrom, ast.Pass, ast.AsyncFunctionDef)) or \
+                (isinstance(st, ast.Expr) and isinstance(st.value, ast.Constant)):
+            pass
+        elif isinstance(st, ast.Assign):
+            # tuple targets, chained targets, attribute stores: names bound here that the model already holds are no longer known
+            for name in self._written_names(st):
+                if self._known(name):
+                    self.taint(name, 'rebound / written by `{}`'.format(unparse(st).split('\n')[0][:60]))
+        else:
+            self._taint_stmt(st, 'written inside a module-level `{}` statement'.format(type(st).__name__.lower()))
+
+    def _table_of_expr(self, node):
+        """{key: binding name or constant} denoted by an expression used as a table: a folded table, a dict display (values: names of
+        bindings, inline `partial(...)` bindings, constants; `**OTHER` splats), `dict(...)` of those; None when not understood."""
+        if isinstance(node, ast.Name):
+            if node.id not in self.poison and node.id in self.tables:
+                return dict(self.tables[node.id])
+            return None
+        if any(isinstance(n, ast.Name) and n.id in self.poison for n in ast.walk(node)):
+            return None
+        try:
+            v = fold(node, self.consts)
+            return dict(v) if isinstance(v, dict) else None
+        except NotConstant:
+            pass
+        pairs = None
+        if isinstance(node, ast.Dict):
+            pairs = list(zip(node.keys, node.values))
+        elif isinstance(node, ast.Call) and isinstance(node.func, ast.Name) and node.func.id == 'dict' and 'dict' not in self.funcs \
+                and len(node.args) <= 1:
+            pairs = [(None, a) for a in node.args] + [(ast.Constant(value=k.arg) if k.arg is not None else None, k.value) for k in node.keywords]
+        if pairs is None:
+            return None
+        out = {}
+        kinds = set()           # a table holds binding names or folded constants, never both (a name is kept as a string)
+        for k, v in pairs:
+            if k is None:
+                sub = self._table_of_expr(v)
+                if sub is None:
+                    return None
+                out.update(sub)
+                continue
+            kk = try_fold(k, self.consts)
+            if kk is None:
+                return None
+            try:
+                hash(kk)
+            except TypeError:
+                return None
+            if isinstance(v, ast.Name) and v.id in self.poison:
+                return None
+            if isinstance(v, ast.Name) and (v.id in self.partials or v.id in self.funcs or v.id in self.closures or v.id in self.classes
+                                            or not self._known(v.id)):
+                out[kk] = v.id
+                kinds.add('name')
+                continue
+            try:
+                out[kk] = fold(v, self.consts)
+                kinds.add('const')
+                continue
+            except NotConstant:
+                pass
+            if isinstance(v, ast.Call):
+                # an inline binding: {'add': partial(r_type, ...)} is the table {'add': <anonymous binding>}
+                anon = '<{}>'.format(unparse(k))
+                n = 0
+                while dict.__contains__(self.partials, anon + ('#%d' % n if n else '')):
+                    n += 1
+                anon += '#%d' % n if n else ''
+                if self._partial_binding(anon, v, v) is not None:
+                    out[kk] = anon
+                    kinds.add('name')
+                    continue
+            return None
+        if len(kinds) > 1:
+            return None
+        return out
+
+    def _members_of_expr(self, arg):
+        """set of members an expression contributes to a set: a folded set / table name, TABLE.keys(), a folded collection; None"""
+        if isinstance(arg, ast.Name) and arg.id not in self.poison and arg.id in self.sets:
+            return set(self.sets[arg.id])
+        if isinstance(arg, ast.Name) and arg.id not in self.poison and arg.id in self.tables:
+            return set(self.tables[arg.id])
+        if (isinstance(arg, ast.Call) and isinstance(arg.func, ast.Attribute) and arg.func.attr == 'keys' and not arg.args
+                and isinstance(arg.func.value, ast.Name) and arg.func.value.id not in self.poison and arg.func.value.id in self.tables):
+            return set(self.tables[arg.func.value.id].keys())
+        if any(isinstance(n, ast.Name) and n.id in self.poison for n in ast.walk(arg)):
+            return None
+        v = try_fold(arg, self.consts)
+        if isinstance(v, (set, frozenset, list, tuple, dict)):
+            try:
+                return set(v)
+            except TypeError:
+                return None
+        return None
+
+    def _module_augassign(self, st, top):
+        """T |= {...} / S |= {...} / S -= {...} at module level."""
+        name = st.target.id
+        if name in self.poison or not self._known(name):
+            return
+        why = 'written by `{}`'.format(unparse(st).split('\n')[0][:70])
+        if isinstance(st.op, ast.BitOr) and dict.__contains__(self.tables, name):
+            sub = self._table_of_expr(st.value)
+            if sub is not None:
+                merged = dict(self.tables[name])
+                merged.update(sub)
+                self.tables[name] = merged
+                self.consts[name] = merged
+                self.modelled_stmts.add(id(top))
+                return
+        elif isinstance(st.op, (ast.BitOr, ast.Sub, ast.BitAnd)) and dict.__contains__(self.sets, name):
+            other = self._members_of_expr(st.value)
+            if other is not None:
+                cur = set(self.sets[name])
+                cur = cur | other if isinstance(st.op, ast.BitOr) else (cur - other if isinstance(st.op, ast.Sub) else cur & other)
+                self.sets[name] = cur
+                self.consts[name] = cur
+                self.modelled_stmts.add(id(top))
+                return
+        elif dict.__contains__(self.consts, name) and not dict.__contains__(self.tables, name) and not dict.__contains__(self.sets, name):
+            try:
+                v = fold(ast.BinOp(left=ast.Name(id=name, ctx=ast.Load()), op=st.op, right=st.value), self.consts)
+                self.consts[name] = v
+                return
+            except NotConstant:
+                pass
+        self.taint(name, why)
+
+    def _module_delete(self, st, top):
+        """del T[k] at module level (a deleted plain name is simply gone)."""
+        for t in st.targets:
+            if isinstance(t, ast.Subscript) and isinstance(t.value, ast.Name):
+                name = t.value.id
+                if name in self.poison or not self._known(name):
+                    continue
+                k_ = try_fold(t.slice, self.consts, default=_MISSING) if not isinstance(t.slice, ast.Slice) else _MISSING
+                if dict.__contains__(self.tables, name) and k_ is not _MISSING and k_ in self.tables[name]:
+                    merged = dict(self.tables[name])
+                    del merged[k_]
+                    self.tables[name] = merged
+                    self.consts[name] = merged
+                    self.modelled_stmts.add(id(top))
+                else:
+                    self.taint(name, 'written by `{}`'.format(unparse(st)[:60]))
+            elif isinstance(t, ast.Name):
+                if self._known(t.id):
+                    self.taint(t.id, 'deleted at module level')
+            else:
+                self._taint_stmt(st, 'written by `{}`'.format(unparse(st)[:60]))
+
+    def _module_setitem(self, st, top):
+        """T[k] = v at module level."""
+        tgt = st.targets[0]
+        name = tgt.value.id
+        if name in self.poison or not self._known(name):
+            return
+        if dict.__contains__(self.tables, name) and not isinstance(tgt.slice, ast.Slice):
+            one = self._table_of_expr(ast.Dict(keys=[tgt.slice], values=[st.value]))
+            if one is not None:
+                self.tables[name] = dict(self.tables[name])
+                self.tables[name].update(one)
+                if dict.__contains__(self.consts, name):
+                    self.consts[name] = self.tables[name]
+                self.modelled_stmts.add(id(top))
+                return
+        self.taint(name, 'written by `{}`'.format(unparse(st).split('\n')[0][:60]))
+
+    def _module_for(self, st, top):
+        """`for x in <literal sequence>: <simple statements>` at module level is unrolled (table registration loops)."""
+        why = 'written inside a module-level loop that is not unrolled'
+        simple = (not st.orelse and all(isinstance(b, (ast.Assign, ast.AugAssign, ast.Delete, ast.Expr, ast.Pass)) for b in st.body)
+                  and not any(isinstance(n, (ast.Yield, ast.YieldFrom, ast.Await, ast.NamedExpr)) for b in st.body for n in ast.walk(b)))
+        elems = None
+        if simple:
+            if isinstance(st.iter, (ast.Tuple, ast.List)) and not any(isinstance(e, ast.Starred) for e in st.iter.elts):
+                elems = list(st.iter.elts)
+            else:
+                try:
+                    v = fold(st.iter, self.consts)
+                    if isinstance(v, dict):
+                        v = list(v)
+                    if isinstance(v, (list, tuple)) and len(v) <= 4096:
+                        elems = [_const_node(x) for x in v]
+                        if any(e is None for e in elems):
+                            elems = None
+                except NotConstant:
+                    elems = None
+        names = None
+        if elems is not None:
+            if isinstance(st.target, ast.Name):
+                names = [st.target.id]
+            elif isinstance(st.target, (ast.Tuple, ast.List)) and all(isinstance(e, ast.Name) for e in st.target.elts):
+                names = [e.id for e in st.target.elts]
+        if names is None:
+            self._taint_stmt(st, why)
+            return
+        for el in elems:
+            if isinstance(st.target, ast.Name):
+                env = {names[0]: el}
+            else:
+                if not isinstance(el, (ast.Tuple, ast.List)) or len(el.elts) != len(names):
+                    self._taint_stmt(st, why)
+                    return
+                env = dict(zip(names, el.elts))
+            for b in st.body:
+                self._module_stmt(_substitute(b, env), top)
+        for name in names:
+            if self._known(name):
+                self.taint(name, 'rebound by a module-level loop')
+
+    def _module_update(self, tgt, call, top):
+        """T.update(...) for a folded dict table T; returns True when folded."""
+        srcs = list(call.args) + [ast.Dict(keys=[ast.Constant(value=k.arg) if k.arg is not None else None for k in call.keywords],
+                                           values=[k.value for k in call.keywords])] if call.keywords else list(call.args)
+        if len(call.args) > 1:
+            return False
+        merged = dict(self.tables[tgt])
+        names = []
+        for a in srcs:
+            sub = self._table_of_expr(a)
+            if sub is None:
+                return False
+            merged.update(sub)
+            if isinstance(a, ast.Name):
+                names.append(a.id)
+        self.tables[tgt] = merged
+        self.consts[tgt] = merged
+        self.table_update_order = getattr(self, 'table_update_order', {})
+        self.table_update_order.setdefault(tgt, []).extend(names)
+        self.modelled_stmts.add(id(top))
+        return True
+
     def _assign(self, name, value, st):
+        """NAME = <value> at module level.  A name the model already holds that is bound again is replaced - or, when the new value
+        is not folded, poisoned (the old value is no longer the content)."""
+        had = self._known(name)
+        if had:
+            for d in (self.consts, self.tables, self.sets, self.partials):
+                dict.pop(d, name, None)
+            self.closures.pop(name, None)
+        if not self._assign_value(name, value, st) and had:
+            self.taint(name, 'rebound to a value that is not folded')
+
+    def _assign_value(self, name, value, st):
         self.assign_nodes[name] = st
         try:
             v = fold(value, self.consts)
@@ -90,63 +516,81 @@ class Facts:
             elif isinstance(v, set):
                 self.sets[name] = v
             self.consts[name] = v
-            return
+            return True
         except NotConstant:
             pass
         if isinstance(value, ast.Call):
-            expanded = self._factory_result(value)
-            if expanded is not None:
-                # NAME = factory(...) where the factory's body is `return partial(...)`: the binding is that partial with the
-                # factory's parameters replaced by the call's arguments
-                value = expanded
-            fn = dotted(value.func)
-            if fn in ('partial', 'functools.partial') and value.args and isinstance(value.args[0], ast.Name):
-                kwargs = {}
-                for kw in value.keywords:
-                    if kw.arg is None:
-                        raise AnalysisError('partial binding {} uses **kwargs'.format(name))
-                    if kw.arg == 'cs':
-                        if not isinstance(kw.value, (ast.List, ast.Tuple)):
-                            raise AnalysisError('partial binding {}: cs is not a literal list'.format(name))
-                        cs = []
-                        for e in kw.value.elts:
-                            if isinstance(e, ast.Name) and e.id in self.closures:
-                                cs.append(self.closures[e.id])
-                            elif isinstance(e, ast.Call) and isinstance(e.func, ast.Name):
-                                cs.append(Closure('<inline>', e.func.id, [self._fold_arg(a) for a in e.args], e))
-                            else:
-                                raise AnalysisError('partial binding {}: unresolved constraint {}'.format(name, unparse(e)))
-                        kwargs['cs'] = cs
-                    else:
-                        kwargs[kw.arg] = self._fold_arg(kw.value)
-                if len(value.args) > 1:
-                    raise AnalysisError('partial binding {} pre-binds positional arguments'.format(name))
-                base = value.args[0].id
-                if base in self.partials:
-                    # partial of a partial: functools flattens it (keywords of the outer one win)
-                    inner = self.partials[base]
-                    merged = dict(inner.kwargs)
-                    merged.update(kwargs)
-                    kwargs, base = merged, inner.func
-                self.partials[name] = Partial(name, base, kwargs, st)
-                return
+            if self._partial_binding(name, value, st) is not None:
+                return True
             if isinstance(value.func, ast.Name) and value.func.id in self.funcs and not value.keywords:
                 try:
                     args = [fold(a, self.consts) for a in value.args]
                 except NotConstant:
-                    return
+                    return False
                 self.closures[name] = Closure(name, value.func.id, args, st)
-                return
-        if isinstance(value, ast.Dict):
-            # dict whose values are names of bindings (mnemonic tables)
-            tbl = {}
-            for k, v in zip(value.keys, value.values):
-                kk = try_fold(k, self.consts)
-                if kk is None or not isinstance(v, ast.Name):
-                    return
-                tbl[kk] = v.id
+                return True
+        if isinstance(value, ast.Dict) or (isinstance(value, ast.Call) and isinstance(value.func, ast.Name) and value.func.id == 'dict'
+                                           and 'dict' not in self.funcs):
+            # dict whose values are names of bindings (mnemonic tables), possibly merged from other tables (`**T`)
+            tbl = self._table_of_expr(value)
+            if tbl is None:
+                return False
             self.tables[name] = tbl
             self.table_nodes[name] = st
+            splats = [v.id for k, v in zip(value.keys, value.values) if k is None and isinstance(v, ast.Name)] \
+                if isinstance(value, ast.Dict) else [a.id for a in value.args if isinstance(a, ast.Name)]
+            if splats:
+                self.table_update_order = getattr(self, 'table_update_order', {})
+                self.table_update_order.setdefault(name, []).extend(splats)
+            return True
+        return False
+
+    def _partial_binding(self, name, value, st):
+        """NAME = partial(func, k=v, ...) (directly, or through a factory whose body is `return partial(...)`): registers and returns
+        the Partial, None when the call is something else."""
+        expanded = self._factory_result(value)
+        if expanded is not None:
+            # NAME = factory(...) where the factory's body is `return partial(...)`: the binding is that partial with the
+            # factory's parameters replaced by the call's arguments
+            value = expanded
+        fn = dotted(value.func)
+        if not (fn in ('partial', 'functools.partial') and value.args and isinstance(value.args[0], ast.Name)):
+            return None
+        kwargs = {}
+        for kw in value.keywords:
+            if kw.arg is None:
+                raise AnalysisError('partial binding {} uses **kwargs'.format(name))
+            if kw.arg == 'cs':
+                cs_node = kw.value
+                if isinstance(cs_node, ast.Name) and cs_node.id not in self.poison and cs_node.id in self.assign_nodes \
+                        and isinstance(self.assign_nodes[cs_node.id], ast.Assign) \
+                        and isinstance(self.assign_nodes[cs_node.id].value, (ast.List, ast.Tuple)):
+                    # cs=NAMED_LIST with NAMED_LIST = [c1, c2] at module level
+                    cs_node = self.assign_nodes[cs_node.id].value
+                if not isinstance(cs_node, (ast.List, ast.Tuple)):
+                    raise AnalysisError('partial binding {}: cs is not a literal list'.format(name))
+                cs = []
+                for e in cs_node.elts:
+                    if isinstance(e, ast.Name) and e.id in self.closures:
+                        cs.append(self.closures[e.id])
+                    elif isinstance(e, ast.Call) and isinstance(e.func, ast.Name):
+                        cs.append(Closure('<inline>', e.func.id, [self._fold_arg(a) for a in e.args], e))
+                    else:
+                        raise AnalysisError('partial binding {}: unresolved constraint {}'.format(name, unparse(e)))
+                kwargs['cs'] = cs
+            else:
+                kwargs[kw.arg] = self._fold_arg(kw.value)
+        if len(value.args) > 1:
+            raise AnalysisError('partial binding {} pre-binds positional arguments'.format(name))
+        base = value.args[0].id
+        if base in self.partials:
+            # partial of a partial: functools flattens it (keywords of the outer one win)
+            inner = self.partials[base]
+            merged = dict(inner.kwargs)
+            merged.update(kwargs)
+            kwargs, base = merged, inner.func
+        self.partials[name] = Partial(name, base, kwargs, st)
+        return self.partials[name]
 
     def _factory_result(self, call, depth=0):
         """The `partial(...)` expression a module-level factory call stands for (parameters substituted by the argument
@@ -204,74 +648,178 @@ class Facts:
         except NotConstant:
             raise AnalysisError('cannot fold bound argument {}'.format(unparse(node)))
 
-    def _module_call(self, call):
-        # NAME.update(OTHER) at module level for dict / set tables
-        if isinstance(call.func, ast.Attribute) and call.func.attr == 'update' and isinstance(call.func.value, ast.Name):
-            tgt = call.func.value.id
-            if len(call.args) != 1:
+    def _module_call(self, call, top):
+        # NAME.update(OTHER) and the other mutating methods at module level for dict / set tables
+        if not (isinstance(call.func, ast.Attribute) and isinstance(call.func.value, ast.Name) and call.func.attr in _MUTATORS):
+            return
+        tgt = call.func.value.id
+        if tgt in self.poison or not self._known(tgt):
+            return
+        why = 'written by `{}`'.format(unparse(call).split('\n')[0][:70])
+        if call.func.attr == 'setdefault' and dict.__contains__(self.tables, tgt) and len(call.args) == 2 and not call.keywords:
+            one = self._table_of_expr(ast.Dict(keys=[call.args[0]], values=[call.args[1]]))
+            if one is not None:
+                merged = dict(self.tables[tgt])
+                for k_, v_ in one.items():
+                    merged.setdefault(k_, v_)            # an existing key keeps its value
+                self.tables[tgt] = merged
+                self.consts[tgt] = merged
+                self.modelled_stmts.add(id(top))
                 return
-            arg = call.args[0]
-            if tgt in self.tables:
-                if isinstance(arg, ast.Name) and arg.id in self.tables:
-                    self.tables[tgt] = dict(self.tables[tgt])
-                    self.tables[tgt].update(self.tables[arg.id])
-                    self.consts[tgt] = self.tables[tgt]
-                    self.table_update_order = getattr(self, 'table_update_order', {})
-                    self.table_update_order.setdefault(tgt, []).append(arg.id)
-            elif tgt in self.sets:
-                src = None
-                if isinstance(arg, ast.Name) and arg.id in self.sets:
-                    src = self.sets[arg.id]
-                elif (isinstance(arg, ast.Call) and isinstance(arg.func, ast.Attribute) and arg.func.attr == 'keys'
-                      and isinstance(arg.func.value, ast.Name) and arg.func.value.id in self.tables):
-                    src = set(self.tables[arg.func.value.id].keys())
-                if src is not None:
-                    self.sets[tgt] = set(self.sets[tgt]) | src
-                    self.consts[tgt] = self.sets[tgt]
+        if call.func.attr == 'pop' and dict.__contains__(self.tables, tgt) and 1 <= len(call.args) <= 2 and not call.keywords:
+            k_ = try_fold(call.args[0], self.consts, default=_MISSING)
+            if k_ is not _MISSING:
+                merged = dict(self.tables[tgt])
+                if k_ in merged or len(call.args) == 2:
+                    merged.pop(k_, None)
+                    self.tables[tgt] = merged
+                    self.consts[tgt] = merged
+                    self.modelled_stmts.add(id(top))
+                    return
+        if call.func.attr in ('add', 'discard', 'remove') and dict.__contains__(self.sets, tgt) and len(call.args) == 1 and not call.keywords:
+            x_ = try_fold(call.args[0], self.consts, default=_MISSING)
+            if x_ is not _MISSING:
+                try:
+                    new_set = set(self.sets[tgt])
+                    if call.func.attr == 'add':
+                        new_set.add(x_)
+                    elif x_ in new_set or call.func.attr == 'discard':
+                        new_set.discard(x_)
+                    else:
+                        raise TypeError
+                    self.sets[tgt] = new_set
+                    self.consts[tgt] = new_set
+                    self.modelled_stmts.add(id(top))
+                    return
+                except TypeError:
+                    pass
+        if call.func.attr != 'update':
+            self.taint(tgt, why)
+            return
+        if dict.__contains__(self.tables, tgt):
+            if not self._module_update(tgt, call, top):
+                self.taint(tgt, why)
+        elif dict.__contains__(self.sets, tgt):
+            src = set() if call.args and not call.keywords else None
+            for arg in (call.args if src is not None else ()):
+                one = self._members_of_expr(arg)
+                if one is None:
+                    src = None
+                    break
+                src |= one
+            if src is not None:
+                self.sets[tgt] = set(self.sets[tgt]) | src
+                self.consts[tgt] = self.sets[tgt]
+                self.modelled_stmts.add(id(top))
+            else:
+                self.taint(tgt, why)
+        else:
+            self.taint(tgt, why)
 
     def _class_details(self, ci):
         init = ci.methods.get('__init__')
+        ci.init_opaque = False
+        ci.attr_detail = None
         if init is not None:
             a = init.args
             pos = a.args[1:]
+            me = a.args[0].arg if a.args else 'self'
             defaults = [None] * (len(pos) - len(a.defaults)) + list(a.defaults)
             ci.init_params = [(p.arg, d) for p, d in zip(pos, defaults)]
             ci.init_vararg = a.vararg.arg if a.vararg else None
             order = []
+            detail = []
+
+            def how_of(v):
+                """(constructor parameter the stored value comes from, how): 'identity' for the parameter itself, 'idempotent' for
+                f(parameter) with f(f(x)) == f(x) (a rebuild from the attribute gives the same attribute), 'const', 'other'."""
+                if isinstance(v, ast.Name):
+                    return v.id, 'identity'
+                if isinstance(v, ast.Constant):
+                    return None, 'const'
+                if isinstance(v, ast.Call) and not v.keywords:
+                    if isinstance(v.func, ast.Name) and v.func.id in ('str', 'int', 'bool', 'tuple', 'list', 'bytes', 'float') \
+                            and len(v.args) == 1 and isinstance(v.args[0], ast.Name):
+                        return v.args[0].id, 'idempotent'
+                    if isinstance(v.func, ast.Attribute) and v.func.attr in ('lower', 'upper', 'strip', 'casefold') and not v.args \
+                            and isinstance(v.func.value, ast.Name):
+                        return v.func.value.id, 'idempotent'
+                return None, 'other'
+
+            def store(attr, v):
+                src, how = how_of(v)
+                order.append((attr, src if how == 'identity' else None))
+                detail.append((attr, src, how))
+
+            def is_me(t):
+                return isinstance(t, ast.Attribute) and isinstance(t.value, ast.Name) and t.value.id == me
+
             for st in init.body:
+                if isinstance(st, ast.Pass) or (isinstance(st, ast.Expr) and isinstance(st.value, ast.Constant)):
+                    continue
                 if (isinstance(st, ast.Expr) and isinstance(st.value, ast.Call)
                         and isinstance(st.value.func, ast.Attribute) and st.value.func.attr == '__init__'):
-                    # super().__init__(line): attribute order continues in the base class
-                    order.append(('<super>', [unparse(x) for x in st.value.args]))
-                elif (isinstance(st, ast.Assign) and len(st.targets) == 1 and isinstance(st.targets[0], ast.Attribute)
-                      and isinstance(st.targets[0].value, ast.Name) and st.targets[0].value.id == 'self'):
-                    src = st.value.id if isinstance(st.value, ast.Name) else None
-                    order.append((st.targets[0].attr, src))
+                    # super().__init__(line) / Base.__init__(self, line): attribute order continues in the base class
+                    cargs = list(st.value.args)
+                    if isinstance(st.value.func.value, ast.Name) and cargs and isinstance(cargs[0], ast.Name) and cargs[0].id == me:
+                        cargs = cargs[1:]
+                    if st.value.keywords or any(isinstance(x, ast.Starred) for x in cargs):
+                        ci.init_opaque = True
+                    order.append(('<super>', [unparse(x) for x in cargs]))
+                    detail.append(('<super>', [unparse(x) for x in cargs], None))
+                elif isinstance(st, ast.Assign) and len(st.targets) == 1 and is_me(st.targets[0]):
+                    store(st.targets[0].attr, st.value)
                 elif (isinstance(st, ast.Assign) and len(st.targets) == 1 and isinstance(st.targets[0], (ast.Tuple, ast.List))
-                      and isinstance(st.value, (ast.Tuple, ast.List)) and len(st.targets[0].elts) == len(st.value.elts)):
+                      and isinstance(st.value, (ast.Tuple, ast.List)) and len(st.targets[0].elts) == len(st.value.elts)
+                      and all(is_me(t) for t in st.targets[0].elts)):
                     # self.a, self.b = a, b : targets are stored left to right
                     for t, v in zip(st.targets[0].elts, st.value.elts):
-                        if isinstance(t, ast.Attribute) and isinstance(t.value, ast.Name) and t.value.id == 'self':
-                            order.append((t.attr, v.id if isinstance(v, ast.Name) else None))
-                elif isinstance(st, ast.Assign) and len(st.targets) > 1 and all(
-                        isinstance(t, ast.Attribute) and isinstance(t.value, ast.Name) and t.value.id == 'self' for t in st.targets):
+                        store(t.attr, v)
+                elif isinstance(st, ast.Assign) and len(st.targets) > 1 and all(is_me(t) for t in st.targets):
                     # self.a = self.b = v : targets are stored left to right
                     for t in st.targets:
-                        order.append((t.attr, st.value.id if isinstance(st.value, ast.Name) else None))
+                        store(t.attr, st.value)
+                else:
+                    # anything else may store attributes in a way this model does not follow (setattr loops, conditionals, helpers)
+                    ci.init_opaque = True
             ci.attr_order = order
+            ci.attr_detail = detail
         args_m = ci.methods.get('args')
-        if args_m is not None:
-            for st in args_m.body:
-                if isinstance(st, ast.Return) and isinstance(st.value, ast.List):
-                    attrs = []
-                    ok = True
-                    for e in st.value.elts:
-                        if isinstance(e, ast.Attribute) and isinstance(e.value, ast.Name) and e.value.id == 'self':
-                            attrs.append(e.attr)
+        if args_m is not None and args_m.args.args and not args_m.decorator_list:
+            me_ = args_m.args.args[0].arg
+            body = [b for b in args_m.body if not (isinstance(b, ast.Expr) and isinstance(b.value, ast.Constant))]
+            local = {}
+
+            def attrs_of(e):
+                """attribute names of a list / tuple display of `self.x` elements, a concatenation of such, list(..) / tuple(..) of one,
+                or a local bound once to one; None otherwise"""
+                if isinstance(e, (ast.List, ast.Tuple)):
+                    out = []
+                    for x in e.elts:
+                        if isinstance(x, ast.Attribute) and isinstance(x.value, ast.Name) and x.value.id == me_:
+                            out.append(x.attr)
                         else:
-                            ok = False
-                    if ok:
-                        ci.args_attrs = attrs
+                            return None
+                    return out
+                if isinstance(e, ast.BinOp) and isinstance(e.op, ast.Add):
+                    l, r = attrs_of(e.left), attrs_of(e.right)
+                    return None if l is None or r is None else l + r
+                if isinstance(e, ast.Call) and isinstance(e.func, ast.Name) and e.func.id in ('list', 'tuple') and len(e.args) == 1 and not e.keywords:
+                    return attrs_of(e.args[0])
+                if isinstance(e, ast.Name) and e.id in local:
+                    return local[e.id]
+                return None
+
+            ok = True
+            for st in body[:-1]:
+                # straight-line locals in front of the return: `operands = [self.a, self.b]`
+                if isinstance(st, ast.Assign) and len(st.targets) == 1 and isinstance(st.targets[0], ast.Name) and st.targets[0].id not in local \
+                        and attrs_of(st.value) is not None:
+                    local[st.targets[0].id] = attrs_of(st.value)
+                else:
+                    ok = False
+            if ok and body and isinstance(body[-1], ast.Return) and body[-1].value is not None:
+                ci.args_attrs = attrs_of(body[-1].value)
 
     # ------------------------------------------------------------------------------------------
     def mro(self, cname):
@@ -325,6 +873,52 @@ class Facts:
             else:
                 out.append((attr, src))
         return out
+
+    def attr_order_detailed(self, cname):
+        """[(attr, constructor parameter or None, how)] like full_attr_order, with how the stored value derives from the parameter:
+        'identity' | 'idempotent' | 'const' | 'other'."""
+        ci = self.classes[cname]
+        if ci.attr_detail is None:
+            for b in ci.bases:
+                if b in self.classes:
+                    return self.attr_order_detailed(b)
+            return []
+        out = []
+        params = {p for p, _ in (ci.init_params or [])}
+        for attr, src, how in ci.attr_detail:
+            if attr == '<super>':
+                for b in ci.bases:
+                    if b in self.classes and self._has_init(b):
+                        base_params = [p for p, _ in self.init_params(b)]
+                        for (battr, bsrc, bhow) in self.attr_order_detailed(b):
+                            mapped, mhow = None, 'other' if bhow != 'const' else 'const'
+                            if bsrc in base_params and base_params.index(bsrc) < len(src):
+                                text = src[base_params.index(bsrc)]
+                                if text in params:
+                                    mapped, mhow = text, bhow
+                            out.append((battr, mapped, mhow))
+                        break
+            else:
+                out.append((attr, src if src in params else None, how if (src in params or how == 'const') else 'other'))
+        return out
+
+    def init_understood(self, cname):
+        """Every __init__ on the constructor chain of cname consists of attribute stores and base-class calls only."""
+        ci = self.init_owner(cname)
+        seen = 0
+        while ci is not None and seen < 8:
+            seen += 1
+            if getattr(ci, 'init_opaque', False):
+                return False
+            if not any(a == '<super>' for a, _ in (ci.attr_order or [])):
+                return True
+            nxt = None
+            for b in ci.bases:
+                if b in self.classes and self._has_init(b):
+                    nxt = self.init_owner(b)
+                    break
+            ci = nxt
+        return True
 
     def _has_init(self, cname):
         return any('__init__' in self.classes[c].methods for c in self.mro(cname))
@@ -398,14 +992,25 @@ class Facts:
         return None
 
     # -- mnemonic tables -------------------------------------------------------------------------
+    def require_static(self, name):
+        """The folded content of a module-level table is its content at run time only if no function writes it."""
+        fn = self.function_written.get(name)
+        if fn is not None:
+            raise AnalysisError('module-level table {} is written by the function {}: its content is not what the module-level '
+                                'statements fold to'.format(name, fn))
+
     def instruction_tables(self):
         """{table name: {mnemonic: binding}} for every *_INSTRUCTIONS table merged into INSTRUCTIONS."""
         order = getattr(self, 'table_update_order', {}).get('INSTRUCTIONS', [])
+        self.require_static('INSTRUCTIONS')
+        for t in order:
+            self.require_static(t)
         return {t: self.tables[t] for t in order}
 
     def instructions(self):
         if 'INSTRUCTIONS' not in self.tables:
             raise AnalysisError('anchor vanished: INSTRUCTIONS table')
+        self.require_static('INSTRUCTIONS')
         return self.tables['INSTRUCTIONS']
 
     def binding(self, mnemonic):
